@@ -1,7 +1,10 @@
 use std::fmt;
 use std::io::ErrorKind;
 use std::ptr;
+#[cfg(not(may_verif))]
 use std::sync::atomic::{AtomicBool, AtomicPtr, Ordering};
+#[cfg(may_verif)]
+use crate::verif::atomic::{AtomicBool, AtomicPtr, Ordering};
 use std::sync::Arc;
 use std::time::Duration;
 
